@@ -3,6 +3,7 @@ package federation
 import (
 	"context"
 	"encoding/json"
+	"errors"
 	"fmt"
 	"time"
 
@@ -246,6 +247,9 @@ func MarshalQuery(query *graphql.Query) (*thunderpb.Query, error) {
 
 // unmarshalQuery unmarshals a protobuf query type into the graphql query type
 func UnmarshalQuery(query *thunderpb.Query) (*graphql.Query, error) {
+	if query == nil {
+		return nil, errors.New("request has no query")
+	}
 	selectionSet, err := unmarshalPbSelectionSet(query.SelectionSet)
 	if err != nil {
 		return nil, oops.Wrapf(err, "unmarshaling query")
